@@ -536,11 +536,23 @@ FIXED = [
 ]
 
 
+def crash_sweep_scenarios():
+    """every crash point (before each mutating call) of every role for one fixed history with a bounce, under two fixed schedules:
+    the 'crash at any instant' clause is swept, not sampled, for this history"""
+    out = []
+    base = {"messages": [{"sender": "s@rem.example", "rcpts": ["u@loc.example", "r@rem.example"], "body": "x\n"}], "script": "KD"}
+    for tape in ([], [1, 0, 2, 1, 3, 0, 1, 2] * 40):
+        for key, n in (("send.qmail-send", 34), ("clean.qmail-clean", 8), ("inj0", 11), ("send.qmail-queue", 11)):
+            for k in range(n):
+                out.append(dict(base, tape=list(tape), crash={"key": key, "k": k}))
+    return out
+
+
 def run(ctx):
     sandbox.ensure_shim()
     tree = vlib.Tree().make("qmail-queue", "qmail-send", "qmail-clean")
     nw = vlib.NCPU
-    fixed = list(FIXED)
+    fixed = list(FIXED) + crash_sweep_scenarios()
     d = os.path.join(vlib.VERIF, "corpus", "C02", "regress")
     if os.path.isdir(d):
         for f in sorted(os.listdir(d)):
